@@ -529,17 +529,27 @@ class NPFacade:
     del _mk_transc
 
     # -- reductions
+    @staticmethod
+    def _ua(a):
+        """AbstractArray -> the wrapped array (so that ConstArr is recognised)."""
+        if hasattr(a, "_array") and not isinstance(a, real_np.ndarray):
+            return a._array
+        return a
+
     def any(self, a, *args, **kw):
+        a = self._ua(a)
         if isinstance(a, ConstArr):
             return _constarr_function("any", a, (a,) + args, kw)
         return real_np.any(a, *args, **kw)
 
     def all(self, a, *args, **kw):
+        a = self._ua(a)
         if isinstance(a, ConstArr):
             return _constarr_function("all", a, (a,) + args, kw)
         return real_np.all(a, *args, **kw)
 
     def max(self, a, *args, **kw):
+        a = self._ua(a)
         if isinstance(a, ConstArr):
             return a.value
         if has_sym(a) and not args and not kw:
@@ -549,6 +559,7 @@ class NPFacade:
     amax = max
 
     def min(self, a, *args, **kw):
+        a = self._ua(a)
         if isinstance(a, ConstArr):
             return a.value
         if has_sym(a) and not args and not kw:
@@ -558,11 +569,13 @@ class NPFacade:
     amin = min
 
     def sum(self, a, *args, **kw):
+        a = self._ua(a)
         if isinstance(a, ConstArr):
             return a.value * a.length
         return real_np.sum(a, *args, **kw)
 
     def average(self, a, *args, **kw):
+        a = self._ua(a)
         if isinstance(a, ConstArr):
             return a.value
         return real_np.average(a, *args, **kw)
